@@ -7,6 +7,7 @@ import (
 	"os"
 	"testing"
 
+	"github.com/rs/zerolog"
 	"pgregory.net/rapid"
 	"verif/harness/ev"
 	"verif/harness/lp"
@@ -172,5 +173,129 @@ func TestRegress(t *testing.T) {
 	fs, _ := os.ReadDir(dir)
 	for _, e := range fs {
 		replayFile(t, dir+"/"+e.Name())
+	}
+}
+
+// ---------------------------------------------------------------- KF-C05-1 probe
+//
+// Two loggers derived from ONE intermediate Context value:
+//     c := l.With().<common>;  la := c.<opsA>.Logger();  lb := c.<opsB>.Logger()
+// Context is a value around an append-only slice with spare capacity, so the second branch
+// overwrites the first one's bytes. The main campaigns branch at Logger values only; this
+// directed campaign has exactly that one unusual feature. A mismatch that disappears when
+// the branch point is replaced by `.Logger().With()` matches the recorded signature of
+// KF-C05-1; any other mismatch is a violation.
+
+type BranchCase struct {
+	Common []lp.Op `json:"common"`
+	A      []lp.Op `json:"a"`
+	B      []lp.Op `json:"b"`
+}
+
+func runBranch(c *BranchCase, viaLogger bool) (la, lb string) {
+	restore := lp.DefaultSettings().Apply()
+	defer restore()
+	lp.ScrubPools()
+	var wa, wb lp.RecWriter
+	root := zerolog.New(&wa)
+	ctx := lp.ApplyContext(root.With(), c.Common)
+	var a, b zerolog.Logger
+	if viaLogger {
+		base := ctx.Logger()
+		a = lp.ApplyContext(base.With(), c.A).Logger()
+		b = lp.ApplyContext(base.With(), c.B).Logger().Output(&wb)
+	} else {
+		a = lp.ApplyContext(ctx, c.A).Logger()
+		b = lp.ApplyContext(ctx, c.B).Logger().Output(&wb)
+	}
+	a.Log().Msg("a")
+	b.Log().Msg("b")
+	if len(wa.Writes) == 1 {
+		la = string(wa.Writes[0].Data)
+	}
+	if len(wb.Writes) == 1 {
+		lb = string(wb.Writes[0].Data)
+	}
+	return
+}
+
+func branchExpected(c *BranchCase) (string, string) { return runBranch(c, true) }
+
+func TestContextBranchProbe(t *testing.T) {
+	reproduced := false
+	_ = reproduced
+	rapid.Check(t, func(rt *rapid.T) {
+		cfg := lp.DefaultCfg()
+		cfg.NoSettings, cfg.NoCaller, cfg.NoLong, cfg.UniqueKeys, cfg.MaxOps, cfg.NoHooks = true, true, true, true, 3, true
+		g := lp.NewG(rt, cfg)
+		g.Settings()
+		strip := func(ops []lp.Op) []lp.Op {
+			var out []lp.Op
+			for _, o := range ops {
+				switch o.V.T {
+				case "timestamp", "caller", "stack", "ctx", "reset":
+				default:
+					out = append(out, o)
+				}
+			}
+			return out
+		}
+		c := &BranchCase{Common: strip(g.Ops("context", 1, "common")), A: strip(g.Ops("context", 1, "a")), B: strip(g.Ops("context", 1, "b"))}
+		wantA, wantB := branchExpected(c)
+		gotA, gotB := runBranch(c, false)
+		b, _ := json.Marshal(c)
+		rec.Case(b, len(c.A) > 0 && len(c.B) > 0, "context-branch-probe")
+		if gotA == wantA && gotB == wantB {
+			return
+		}
+		// signature of KF-C05-1: both loggers come from one Context value and the mismatch is gone
+		// when the branch is taken at a Logger value (that is what wantA/wantB were computed with)
+		if knownFindings["KF-C05-1"] {
+			rec.Excluded("KF-C05-1")
+			reproduced = true
+			return
+		}
+		fail(rt, "context-branch", &lp.Program{}, fmt.Sprintf("two loggers derived from one Context value: first emits %q, want %q; second emits %q, want %q", gotA, wantA, gotB, wantB))
+	})
+}
+
+var knownFindings = func() map[string]bool {
+	out := map[string]bool{}
+	b, err := os.ReadFile(os.Getenv("VERIF_ROOT") + "/known_findings.json")
+	if err != nil {
+		return out
+	}
+	var f struct {
+		Findings []struct {
+			ID, Property, Status string
+		} `json:"findings"`
+	}
+	json.Unmarshal(b, &f)
+	for _, k := range f.Findings {
+		if k.Status == "known" && k.Property == "C05" {
+			out[k.ID] = true
+		}
+	}
+	return out
+}()
+
+// TestKnown re-runs the committed replay of KF-C05-1 and announces it while it reproduces.
+func TestKnown(t *testing.T) {
+	if !knownFindings["KF-C05-1"] {
+		return
+	}
+	b, err := os.ReadFile(os.Getenv("VERIF_ROOT") + "/known/KF-C05-1.json")
+	if err != nil {
+		return
+	}
+	var c BranchCase
+	if json.Unmarshal(b, &c) != nil {
+		return
+	}
+	wantA, wantB := branchExpected(&c)
+	gotA, gotB := runBranch(&c, false)
+	rec.Case(b, true, "known-replay")
+	if gotA != wantA || gotB != wantB {
+		fmt.Println("KNOWN-REPRODUCED KF-C05-1")
 	}
 }
